@@ -114,6 +114,13 @@ def observe(gp, decode_rows=None):
             full = ('with_fixed=False differs when asked before/after the restricted enumeration', ff[0][:3], full[0][:3])
     rows, acts = _rows(x, act)
     n_valid = gp.get_n_valid_designs(with_fixed=True)
+    # counting active continuous variables as two-level variables (include_cont): 2^(active continuous) per listed design
+    cont_cols = [not d.is_discrete for d in gp.des_vars]
+    want_cont = sum(2**sum(1 for a_, c_ in zip(a, cont_cols) if a_ and c_) for a in acts)
+    try:
+        n_valid_cont = int(gp.get_n_valid_designs(with_fixed=True, include_cont=True))
+    except Exception as e:  # noqa
+        n_valid_cont = f'{type(e).__name__}: {e}'
     dec = []
     cont = [not d.is_discrete for d in gp.des_vars]
 
@@ -150,7 +157,22 @@ def observe(gp, decode_rows=None):
             stats['mismatch'] = dict(table=stats['problem'], expected=want)
     except Exception as e:  # noqa
         stats = dict(error=f'{type(e).__name__}: {e}')
-    return dict(dvs=dvs, rows=rows, acts=acts, n_valid=int(n_valid), decodes=dec, full=full, stats=stats)
+    # design-variable nodes that are fixed carry the fixed value on decoded instances (vector given as plain ints)
+    fixed_bad = []
+    fixed_nodes = [(gp.all_des_vars[k_], v_) for k_, v_ in getattr(gp, '_fixed_values', {}).items()
+                   if type(gp.all_des_vars[k_].node).__name__ == 'DesignVariableNode']
+    if fixed_nodes:
+        for r in rows[:8]:
+            vec = [0 if v == 'cont' else (int(v) if float(v).is_integer() else v) for v in r]
+            try:
+                g_i, _, _ = gp.get_graph(list(vec))
+            except Exception:  # noqa (reported through the decodes)
+                continue
+            for dv_, v_ in fixed_nodes:
+                if dv_.node in g_i.graph.nodes and g_i.des_var_value(dv_.node) != v_:
+                    fixed_bad.append(f'{dv_.name} fixed to {v_}, instance of {vec} carries {g_i.des_var_value(dv_.node)}')
+    return dict(dvs=dvs, rows=rows, acts=acts, n_valid=int(n_valid), decodes=dec, full=full, stats=stats,
+                count_cont=(n_valid_cont, want_cont), fixed_bad=fixed_bad[:3])
 
 
 def _observe_fast(gp, dvs, decode_rows=None):
@@ -249,6 +271,7 @@ def check_restriction(res, name, fixed, obs_fixed, obs0, cfg, inputs):
         _viol(res, 'fix', dict(kind='count', **sig), cfg, inputs, dict(n_valid=obs_fixed['n_valid'], rows=len(obs_fixed['rows'])), 'count == rows')
     else:
         res['discharged'] += 1
+    _extra_obligations(res, obs_fixed, sig, cfg, inputs)
     # decodes of the restricted rows return themselves
     for r, a, d in zip(obs_fixed['rows'], obs_fixed['acts'], obs_fixed['decodes']):
         res['obligations'] += 1
@@ -256,6 +279,19 @@ def check_restriction(res, name, fixed, obs_fixed, obs0, cfg, inputs):
             _viol(res, 'fix', dict(kind='decode_of_listed_row', **sig), cfg, dict(inputs, row=list(r)), dict(decode=d), dict(row=r, active=a))
         else:
             res['discharged'] += 1
+
+
+def _extra_obligations(res, obs_fixed, sig, cfg, inputs):
+    cc = obs_fixed.get('count_cont')
+    if cc is not None:
+        res['obligations'] += 1
+        if cc[0] != cc[1]:
+            _viol(res, 'fix', dict(kind='count_include_cont', **sig), cfg, inputs, dict(get_n_valid_designs_include_cont=cc[0]),
+                  dict(sum_over_listed_designs_of_2_pow_active_continuous=cc[1]))
+        else:
+            res['discharged'] += 1
+    if obs_fixed.get('fixed_bad'):
+        _viol(res, 'fix', dict(kind='fixed_value_not_on_instance', **sig), cfg, inputs, obs_fixed['fixed_bad'], 'a fixed design-variable node carries the fixed value')
 
 
 def check_same(res, name, what, obs, ref, cfg, inputs):
@@ -472,6 +508,9 @@ def _run_single(inst, res):
         else:
             res['discharged'] += 1
 
+    if not kinds[0] and not is_conn and accepted_vals:
+        lo_, hi_ = dv0.bounds
+        accepted_vals = list(accepted_vals)+[lo_+(hi_-lo_)*0.37]   # a second, non-integer value inside the bounds
     # native continuation of each accepting path
     for val in accepted_vals:
         inputs = dict(value=val)
@@ -489,6 +528,7 @@ def _run_single(inst, res):
                 _viol(res, 'fix', dict(kind='continuous_fix_changes_rows', template=name, k=k), cfg, inputs, dict(rows=obs_f['rows'][:4]), 'free rows without that column')
             else:
                 res['discharged'] += 1
+            _extra_obligations(res, obs_f, dict(template=name, fixed={str(k): val}), cfg, inputs)
         else:
             obs_f = observe(gp)
             check_restriction(res, name, {k: float(val)}, obs_f, obs0, cfg, inputs)
